@@ -141,6 +141,26 @@ def rule_certlen(ctx) -> None:
     chk.decide(bool(iv) and [norm(a) for a in iv[0].args] == ["self.app", "self.total_len + self.cert_block.signature_size", "self.app_len"], "C02.certlen", fn.qual + " ivt", "IVT total length includes the signature; cert offset word = application length", norm(iv[0]) if iv else "", "", A.loc(MIX, fn.node))
 
 
+def rule_manifest_digest(ctx) -> None:
+    """C02.manifest-digest: the optional manifest digest is the hash of the bytes that were signed (everything preceding the signature)."""
+    chk = ctx.chk
+    fn = ctx.own(MIX, "Mbi_ExportMixinAppCertBlockManifest", "finalize")
+    hs = [c for c in ast.walk(fn.node) if isinstance(c, ast.Call) and A.call_name(c) == "get_hash"]
+    if len(hs) != 1:
+        raise AnalysisError("C02.manifest-digest: get_hash call of finalize not found")
+    data = norm(A.inline_locals(fn.node, A.arg_of(hs[0], 0, "data")))
+    alg = norm(A.arg_of(hs[0], 1, "algorithm")) if A.arg_of(hs[0], 1, "algorithm") is not None else ""
+    chk.decide(data == "self.data_to_sign" and alg == "self.manifest.digest_hash_algo", "C02.manifest-digest", fn.qual, "digest = H(self.data_to_sign) with the manifest's digest algorithm",
+               f"digest is computed over `{data}` with `{alg}`", "get_hash(self.data_to_sign, self.manifest.digest_hash_algo)", A.loc(MIX, hs[0]))
+    # data_to_sign is what the signing mixin signed
+    for cn in ("Mbi_ExportMixinEccSign",):
+        sg = ctx.own(MIX, cn, "sign")
+        dts = [n for n in A.walk_no_nested(sg.node) if isinstance(n, ast.Assign) and norm(n.targets[0]) == "self.data_to_sign"]
+        gs = [c for c in A.calls_in(sg.node, "get_signature")]
+        ok = len(dts) == 1 and norm(dts[0].value) == "image.export()" and bool(gs) and norm(gs[0].args[0]) == "self.data_to_sign" and dts[0].lineno < gs[0].lineno
+        chk.decide(ok, "C02.manifest-digest", sg.qual, "self.data_to_sign = image.export() taken before the signature is appended, and it is what gets signed", "", "", A.loc(MIX, sg.node))
+
+
 def run(ctx) -> None:
     ctx.chk.explain("C02: the CRC window (two slices around the 4-byte word, chained, MPEG-2), the BCA CRC fields, the manifest CRC, the bytes handed to the signature provider, the "
                     "EccSignVx signed windows vs the windows written afterwards, the HMAC input and derived key, the AES-CTR twin and the post-encrypt layout/revert windows, "
@@ -153,6 +173,7 @@ def run(ctx) -> None:
     ctx.rule(c09.rule_keystore, "C02")
     ctx.rule(c01.rule_presence, "C02")
     ctx.rule(c03.rule_key_hash, "C02")
+    ctx.rule(rule_manifest_digest)
     from . import c17 as _c17
     _t = _c17.build_taint(ctx)
     ctx.rule(_c17.rule_stable_getter, _t, "C02")
